@@ -589,6 +589,11 @@ func main() {
 	again := map[string]int{}
 	for _, c := range p.cands {
 		again[c.Case.key()+"|"+c.Kind+"|"+c.Step]++
+		if c.Kind == "crash" {
+			// a library goroutine that panics does so at whatever API step the flow has reached by then:
+			// the same case crashing again at another step is the same crash
+			again[c.Case.key()+"|crash|*"]++
+		}
 	}
 	if len(skipped) > 0 {
 		run.Cap(fmt.Sprintf("%d further violation signatures were not re-run for confirmation and are not reported (only the first %d are)", len(skipped), maxConfirm))
@@ -599,7 +604,11 @@ func main() {
 			continue
 		}
 		if !run.IsKnown(sig) {
-			if n := again[first.Case.key()+"|"+first.Kind+"|"+first.Step]; n < 2 {
+			n := again[first.Case.key()+"|"+first.Kind+"|"+first.Step]
+			if first.Kind == "crash" {
+				n = again[first.Case.key()+"|crash|*"]
+			}
+			if n < 2 {
 				run.Flaky(fmt.Sprintf("%s reproduced %d of 2 times: %s", sig, n, first.Case.key()))
 				continue
 			}
